@@ -590,8 +590,8 @@ def r01_4(ctx):
     ctx.ob("R01.4", "Parser::error:clamp", ok and "compar" in why, pe.loc(), "Parser::error clamps the error index to the input length before rendering" if ok else "Parser::error passes an unclamped index to Error::syntax")
 
 
-def r01_5(ctx):
-    prog = ctx.prog()
+def r01_5(ctx, config="native"):
+    prog = ctx.prog(config)
     bodies = []
     for fn in prog.fns.values():
         for b, o, c in fn.const_operands():
